@@ -622,7 +622,8 @@ def is_subdir(base_path, test_path, trailing_slash=False, wildcards=False):
             test_path += '/'
 
     if wildcards:
-        return fnmatch.fnmatchcase(test_path, base_path)
+        # Match the directory itself and everything below it
+        return fnmatch.fnmatchcase(test_path, base_path + '*')
     else:
         return test_path.startswith(base_path)
 
